@@ -1,6 +1,9 @@
 #!/bin/bash
-# run the thorough tier of every claimed check, one summary line each (long: 1-2 h)
-cd /verif
-for id in $(/venv/bin/python -c "import json;print(' '.join(c['property_id'] for c in json.load(open('/verif/MANIFEST.json'))['checks']))"); do
-  /usr/bin/time -f "$id wall %e s" ./check $id --tier thorough 2>&1 | grep -v WARNING | grep "VIOLATION\|BROKEN\| -> \|wall" | cut -c1-220
+# run the thorough tier of every claimed check from the directory this script lives in (used with vp run), one summary line each
+cd "$(dirname "$0")/.."
+ROOT=$PWD
+./setup.sh >/dev/null 2>&1
+for p in $(/venv/bin/python -c "import json;print(' '.join(c['property_id'] for c in json.load(open('MANIFEST.json'))['checks']))"); do
+  out=$(VERIF_SEED=${VERIF_SEED:-0} PYTHONHASHSEED=0 PYTHONPATH=$ROOT:/verif/pydeps:/repo ROCKIT_VERIF=1 /venv/bin/python -c "import sys; from harness.driver import main; main(sys.argv[1:])" $p --tier thorough 2>&1 | grep -v "^WARNING" | grep "VIOLATION\|BROKEN\| -> " | cut -c1-220 | tr '\n' ' ')
+  echo "$out"
 done
